@@ -1,5 +1,5 @@
 import Driver.Common
-import IoraModel.Model.UdpEngine
+import IoraModel.Model.UdpWake
 /-! Line-protocol driver of the UDP engine model (component `udp`, property C06). See harness/c06_udp.cpp for the op grammar. -/
 namespace Iora.Driver.Udp
 open Iora Iora.Udp Iora.Driver
@@ -79,8 +79,10 @@ def showOuts (os : List Out) : String :=
   if os.isEmpty then "-" else ";".intercalate ((sortCloseRuns os).map showOut)
 
 structure St where
-  cfg : Cfg := { mapped := fun a => decide (10 ≤ a ∧ a < 17) }     -- address ids 10…16 = v4-mapped forms (harness convention)
-  st : State := {}
+  /-- engine configuration + epoll mode + the shapes of the two receive loops: every default comes from `Gen/Udp.lean` (`WCfg`) -/
+  w : WCfg := { cfg := { mapped := fun a => decide (10 ≤ a ∧ a < 17) } }     -- address ids 10…16 = v4-mapped forms (harness convention)
+  /-- engine state + the kernel receive queues of the sockets -/
+  ws : WState := {}
   /-- the addresses ever used (for printing the peer index) -/
   addrs : Nat := 20
   /-- number of model inputs so far (the ghost token handed to `step`) -/
@@ -91,7 +93,7 @@ structure St where
   dual : List Nat := []
 
 def showState (s : St) : String :=
-  let st := s.st
+  let st := s.ws.st
   let ix := (List.range s.addrs).filterMap (fun a => (st.peerIndex a).map (fun sid => s!"{a}>{sid}"))
   let ss := (List.range st.nextSid).filterMap (fun sid => (st.sessions sid).map (fun x =>
     match x.role with
@@ -100,18 +102,44 @@ def showState (s : St) : String :=
   let ls := (List.range st.nextLid).filterMap (fun lid => (st.listeners lid).map (fun l => s!"L{lid}:{l.wq.length}:{bit l.wantWrite}:{bit l.armIn}{bit l.armOut}"))
   s!"n={st.sessionsCurrent} ix={",".intercalate ix} s={",".intercalate ss} l={",".intercalate ls}"
 
-def runIns (s : St) : List In → St × List Out
+def runIns (s : St) : List WIn → St × List Out
   | [] => (s, [])
   | i :: is =>
-    let r := Iora.Udp.step s.cfg s.n s.st i
-    let r2 := runIns { s with st := r.1, n := s.n + 1 } is
+    let r := Iora.Udp.wstep s.w s.n s.ws i
+    let r2 := runIns { s with ws := r.1, n := s.n + 1 } is
     (r2.1, r.2 ++ r2.2)
 
-def doSteps (s : St) (is : List In) : St × String :=
-  let r := runIns s is
-  (r.1, s!"{showOuts r.2} | {showState r.1}")
+/-- further `epoll_wait` rounds without a new arrival for one socket, while something is queued there (at most `fuel` rounds): a
+level-triggered socket is reported again and again until its queue is empty, an edge-triggered one is not reported at all -/
+def pollSock (s : St) (sock : Src) : Nat → St × List Out
+  | 0 => (s, [])
+  | fuel + 1 =>
+    let queued := match sock with
+      | .lst l => !(s.ws.lq l).isEmpty
+      | .cli i => !(s.ws.cq i).isEmpty
+    if s.w.et || !queued then (s, [])
+    else
+      let r := runIns s [match sock with | .lst l => WIn.arriveL l [] | .cli i => WIn.arriveC i []]
+      let r2 := pollSock r.1 sock fuel
+      (r2.1, r.2 ++ r2.2)
 
-def doStep (s : St) (i : In) : St × String := doSteps s [i]
+def pollSocks (s : St) : List Src → St × List Out
+  | [] => (s, [])
+  | k :: ks =>
+    let n := match k with | .lst l => (s.ws.lq l).length | .cli i => (s.ws.cq i).length
+    let r := pollSock s k n
+    let r2 := pollSocks r.1 ks
+    (r2.1, r.2 ++ r2.2)
+
+/-- run the inputs of one op, then (level-triggered only) the re-reports of the sockets the op delivered EPOLLIN for -/
+def doStepsP (s : St) (is : List WIn) (socks : List Src) : St × String :=
+  let r := runIns s is
+  let r2 := pollSocks r.1 socks
+  (r2.1, s!"{showOuts (r.2 ++ r2.2)} | {showState r2.1}")
+
+def doSteps (s : St) (is : List WIn) : St × String := doStepsP s is []
+
+def doStep (s : St) (i : In) : St × String := doSteps s [.io i]
 
 /-- peers 0–6 are IPv4 sockets (127.0.0.1 / 127.0.0.2), peers 7… are IPv6 (::1) — the harness's convention -/
 def peerV6 (p : Nat) : Bool := p ≥ 7
@@ -129,7 +157,7 @@ def parseKV (cfg : Cfg) (kv : String) : Option Cfg :=
       else if k = "age" then some { cfg with maxConnAgeMs := n * 1000 }
       else if k = "stall" then some { cfg with writeStallTimeoutMs := n }
       else if k = "chunk" then some { cfg with ioReadChunk := n }
-      else if k = "batch" || k = "et" then some cfg       -- event-loop flavour: `batch` only orders multi-event batches (see `step`)
+      else if k = "batch" || k = "et" then some cfg       -- event-loop flavour: `batch` orders multi-event batches, `et` sets `WCfg.et` (see `step`)
       else none
   | _ => none
 
@@ -147,12 +175,12 @@ def parseDgs (s : String) : Option (List (Addr × Bytes × Bool)) :=
 
 /-- the model inputs of one `recvfrom` loop: maximal runs of datagrams with a good key, one `recvKeyFail` per datagram whose key() fails
 (an empty datagram makes no key() call at all) -/
-def dgInputs (dual : Bool) (lid : Nat) : List (Addr × Bytes × Bool) → List (Addr × Bytes) → List In
-  | [], acc => if acc.isEmpty then [] else [.recvFrom lid acc.reverse]
+def dgInputs (dual : Bool) (lid : Nat) : List (Addr × Bytes × Bool) → List (Addr × Bytes) → List WIn
+  | [], acc => if acc.isEmpty then [] else [.arriveL lid acc.reverse]
   | (p, b, bad) :: rest, acc =>
     let a := if dual && p < 7 then p + 10 else p
     if bad && !b.isEmpty then
-      (if acc.isEmpty then [] else [In.recvFrom lid acc.reverse]) ++ In.recvKeyFail lid 1 :: dgInputs dual lid rest []
+      (if acc.isEmpty then [] else [WIn.arriveL lid acc.reverse]) ++ WIn.io (In.recvKeyFail lid 1) :: dgInputs dual lid rest []
     else dgInputs dual lid rest ((a, b) :: acc)
 
 def parseCmd : List String → Option In
@@ -181,7 +209,7 @@ def splitAt (sep : String) : List String → List (List String)
 structure BEv where
   sock : Option Src
   out : Bool
-  ins : List In
+  ins : List WIn
 
 def parseEv (dual : List Nat) : List String → Option BEv
   | ["dg", lid, dgs] =>
@@ -190,18 +218,18 @@ def parseEv (dual : List Nat) : List String → Option BEv
     | _, _ => none
   | ["cdg", sid, pls] =>
     match sid.toNat?, (pls.splitOn ",").mapM parsePayload with
-    | some i, some ds => some ⟨some (.cli i), false, [.clientRecv i ds]⟩
+    | some i, some ds => some ⟨some (.cli i), false, [.arriveC i ds]⟩
     | _, _ => none
   | ["wl", lid, sc] =>
     match lid.toNat?, parseScript sc with
-    | some l, some as => some ⟨some (.lst l), true, [.writableL l as]⟩
+    | some l, some as => some ⟨some (.lst l), true, [.io (.writableL l as)]⟩
     | _, _ => none
   | ["wc", sid, sc] =>
     match sid.toNat?, parseScript sc with
-    | some i, some as => some ⟨some (.cli i), true, [.writableC i as]⟩
+    | some i, some as => some ⟨some (.cli i), true, [.io (.writableC i as)]⟩
     | _, _ => none
-  | ["gc"] => some ⟨none, false, [.gc]⟩
-  | "cmds" :: rest => ((splitAt "/" rest).mapM parseCmd).map (fun is => ⟨none, false, is⟩)
+  | ["gc"] => some ⟨none, false, [.io .gc]⟩
+  | "cmds" :: rest => ((splitAt "/" rest).mapM parseCmd).map (fun is => ⟨none, false, is.map WIn.io⟩)
   | _ => none
 
 /-- is the event's interest armed in state `st` (what the kernel looks at when it builds the batch)? -/
@@ -228,18 +256,22 @@ partial def mergeSame : List BEv → List BEv
 def step (s : St) : List String → St × String
   | "reset" :: kvs =>
     match kvs.foldlM parseKV ({ mapped := fun a => decide (10 ≤ a ∧ a < 17) } : Cfg) with
-    | some cfg => ({ cfg := cfg, batched := kvs.contains "batch=1", addrs := 20 }, "ok")
+    | some cfg =>
+      -- `et=` overrides `TransportConfig::useEdgeTriggered`; without it the translated default (`WCfg.et`) applies
+      let w0 : WCfg := { cfg := cfg }
+      let w : WCfg := if kvs.contains "et=0" then { w0 with et := false } else if kvs.contains "et=1" then { w0 with et := true } else w0
+      ({ w := w, batched := kvs.contains "batch=1", addrs := 20 }, "ok")
     | none => (s, "bad-op")
   | ["listen"] =>
-    let lid := s.st.nextLid
+    let lid := s.ws.st.nextLid
     let r := doStep s (.listen false)
     (r.1, s!"L{lid} | {showState r.1}")
   | ["listen6"] =>
-    let lid := s.st.nextLid
+    let lid := s.ws.st.nextLid
     let r := doStep s (.listen true)
     (r.1, s!"L{lid} | {showState r.1}")
   | ["listenD"] =>
-    let lid := s.st.nextLid
+    let lid := s.ws.st.nextLid
     let r := doStep { s with dual := lid :: s.dual } (.listen true)
     (r.1, s!"L{lid} | {showState r.1}")
   | ["via", lid, _, "!"] =>
@@ -250,16 +282,16 @@ def step (s : St) : List String → St × String
     match (splitAt ";" rest).mapM (parseEv s.dual) with
     | none => (s, "bad-op")
     | some evs =>
-      let armed := evs.filter (armedAt s.st)
+      let armed := evs.filter (armedAt s.ws.st)
       let ordered := batchOrder (fun (e : BEv) => e.sock.isNone) s.batched (mergeSame armed)
-      doSteps s (ordered.flatMap (·.ins))
+      doStepsP s (ordered.flatMap (·.ins)) ((ordered.filter (fun e => !e.out)).filterMap (·.sock))
   | ["dg", lid, dgs] =>
     match lid.toNat?, parseDgs dgs with
-    | some l, some ds => doSteps s (dgInputs (s.dual.contains l) l ds [])
+    | some l, some ds => doStepsP s (dgInputs (s.dual.contains l) l ds []) [.lst l]
     | _, _ => (s, "bad-op")
   | ["cdg", sid, pls] =>
     match sid.toNat?, (pls.splitOn ",").mapM parsePayload with
-    | some i, some ds => doStep s (.clientRecv i ds)
+    | some i, some ds => doStepsP s [.arriveC i ds] [.cli i]
     | _, _ => (s, "bad-op")
   | ["connect", p] =>
     match p.toNat? with
@@ -291,6 +323,27 @@ def step (s : St) : List String → St × String
     | none => (s, "bad-op")
   | ["gc"] => doStep s .gc
   | ["restart"] => doStep s .restart
+  | "restart" :: rest =>
+    -- `restart <cmd> / …`: the commands sit in front of the Shutdown command in the batch `process()` takes; `restart @<sid> <cmd> / …`:
+    -- `close <sid>` is in that batch and the commands are enqueued by its onClose callback (only if `sid` is open: otherwise no callback),
+    -- i.e. they are run by the leading `process()` of `shutdownDrain` — in both cases: the commands in order, then the drain
+    let (hook, toks) : Option Nat × List String := match rest with
+      | h :: tl => if h.startsWith "@" then ((h.drop 1).toNat?, tl) else (none, rest)
+      | [] => (none, [])
+    match (splitAt "/" toks).mapM parseCmd with
+    | none => (s, "bad-op")
+    | some cmds =>
+      if cmds.any (fun c => match c with | .cmdSend .. => false | .close _ => false | _ => true) then (s, "bad-op")
+      else match rest.head? with
+        | some h =>
+          if h.startsWith "@" then
+            match hook with
+            | none => (s, "bad-op")
+            | some sid =>
+              let fires := (s.ws.st.sessions sid).isSome
+              doSteps s ((WIn.io (.close sid) :: (if fires then cmds.map WIn.io else [])) ++ [WIn.io .restart])
+          else doSteps s (cmds.map WIn.io ++ [WIn.io .restart])
+        | none => (s, "bad-op")
   | _ => (s, "bad-op")
 
 def main : IO Unit := runLines ({} : St) step
